@@ -20,6 +20,10 @@ const rule = "A case is one history on a fresh database (hashmap ±shadow-delete
 	"(Put with / without / null Value, Delete, unregistered key, Get) and the config API (SetConfigOption, ReplaceConfig) with exact/prefix/other subscriptions, before and after cancel; " +
 	"purge kind: Interface.Purge of a subscribed prefix on a fresh bbolt database (0–5 records, interfaces with all / some / no privileges), implementation only; " +
 	"putmany lines: one-record batches through Interface.PutMany on hashmap / bbolt; " +
+	"rehook lines (in every history; samehook kind: 1–2 hook values × 2–3 registrations): an existing hook value registered again with the same / another query object, registrations cancelled in every order (also twice) with the same writes and reads after each cancel; " +
+	"hook-two-databases kind: one hook value registered any number of times on two hashmap databases, puts / gets on both, cancels by index (implementation only); " +
+	"reglife kind: a runtime registry through its life cycle — providers registered before and after InjectAsDatabase on nested keys and prefixes (about half refused), push functions called before / after the injection and before / after anybody subscribed, " +
+	"for keys inside and outside the pusher's prefix, single and multi-record pushes, all flags incl. deleted, subscribe / hook / read / write attempts before the injection, a second injection — mixed with the ordinary operations; " +
 	"concurrent kind: recorded traces of writers vs. Subscribe vs. Cancel (forced at the verif event points) replayed through the interleaving model. " +
 	"hconc kind: recorded traces of gets / puts (pre-get, post-get, pre-put hook phases; pass and veto hooks with prefix × condition queries) vs. 0–2 concurrent RegisteredHook.Cancel per hook, " +
 	"with the operation parked inside an earlier hook's call while a later hook is cancelled, Cancel called during a call of the same hook, Cancel inside its locked section vs. arriving operation, random pairs; replayed through the interleaving model of hooksLock. " +
@@ -69,14 +73,20 @@ type seqGen struct {
 	nsub   int
 	nhook  int
 	live   []int // active subscription ids
-	hooks  []int // active hook ids
+	hooks  []int // active registration ids
+	hvals  []int // hook values (objects) made so far
+	hvalQ  map[int]int // hook value → the query object it was registered with last
+	provs  []int // runtime registry (reglife kind): providers registered so far (the accepted ones)
+	pkeys  []string
+	nprov  int
+	life   bool  // reglife kind: pushes go through the providers' push functions, the registry calls are mixed in
 	vetoes bool
 	drain  bool
 	writes int
 	keys   []string
 }
 
-func (g *seqGen) emit(l string) { g.lines = append(g.lines, l) }
+func (g *seqGen) emit(l ...string) { g.lines = append(g.lines, l...) }
 
 func (g *seqGen) newQuery() int {
 	cond := "T"
@@ -146,10 +156,12 @@ func (g *seqGen) op() {
 		g.afterWrite()
 		g.r.Count("op:cancel")
 	case x < 18:
+		if len(g.hvals) > 0 && rng.Intn(100) < 30 {
+			g.rehook()
+			return
+		}
 		q := g.someQuery()
-		g.emit(fmt.Sprintf("hook %d %d %s %s %s", g.nhook, q, g.beh(false), g.beh(true), g.beh(true)))
-		g.hooks = append(g.hooks, g.nhook)
-		g.nhook++
+		g.newHook(q)
 		g.r.Count("op:hook")
 	case x < 22 && len(g.hooks) > 0:
 		k := rng.Intn(len(g.hooks))
@@ -218,6 +230,10 @@ func (g *seqGen) op() {
 			g.r.Count("op:get")
 		}
 	case x < 92:
+		if g.life {
+			g.lifeOp()
+			return
+		}
 		if g.kind == "inj" || g.kind == "reg" || rng.Intn(100) < 30 {
 			g.emit(fmt.Sprintf("push %s %d %s %s", g.key(), rng.Intn(10), pick(rng, genStrs), pick(rng, genFlags)))
 			g.afterWrite()
@@ -229,6 +245,257 @@ func (g *seqGen) op() {
 	default:
 		g.emit("raw " + g.key())
 	}
+}
+
+// newHook: a new hook value, registered once.
+func (g *seqGen) newHook(q int) {
+	g.emit(fmt.Sprintf("hook %d %d %s %s %s", g.nhook, q, g.beh(false), g.beh(true), g.beh(true)))
+	g.hooks = append(g.hooks, g.nhook)
+	g.hvals = append(g.hvals, g.nhook)
+	if g.hvalQ == nil {
+		g.hvalQ = map[int]int{}
+	}
+	g.hvalQ[g.nhook] = q
+	g.nhook++
+}
+
+// rehook: an existing hook value (also one whose registrations are all cancelled) registered once more — with the
+// query object it was registered with before, or another / a new one.
+func (g *seqGen) rehook() {
+	hv := g.hvals[g.rng.Intn(len(g.hvals))]
+	q := g.hvalQ[hv]
+	if g.rng.Intn(100) < 70 {
+		q = g.someQuery()
+		g.r.Count("rehook:other-query-object")
+	} else {
+		g.r.Count("rehook:same-query-object")
+	}
+	g.emit(fmt.Sprintf("rehook %d %d %d", g.nhook, hv, q))
+	g.hooks = append(g.hooks, g.nhook)
+	g.hvalQ[hv] = q
+	g.nhook++
+	g.r.Count("op:rehook")
+}
+
+// addProv emits a Register call; only providers the registry will accept (no provider on a prefix of the key or on
+// the key itself, none below a new prefix — the documented contract of Register) are used for pushes later.
+func (g *seqGen) addProv() {
+	k := pick(g.rng, lifeProvKeys)
+	if len(g.pkeys) == 0 && g.rng.Intn(100) < 60 {
+		k = "a/" // most keys of the case are below it
+	}
+	g.emit(fmt.Sprintf("prov %d %s", g.nprov, k))
+	taken, longest := false, ""
+	for _, p := range g.pkeys {
+		if strings.HasPrefix(k, p) && len(p) >= len(longest) {
+			longest = p
+		}
+		if strings.HasSuffix(k, "/") && strings.HasPrefix(p, k) {
+			taken = true
+		}
+	}
+	if longest != "" && (strings.HasSuffix(longest, "/") || longest == k) {
+		taken = true
+	}
+	if !taken {
+		g.provs = append(g.provs, g.nprov)
+		g.pkeys = append(g.pkeys, k)
+	} else {
+		g.r.Count("reglife:register-refused")
+	}
+	g.nprov++
+}
+
+var lifeProvKeys = []string{"a/", "a/", "a/x", "a/x/", "a/b/", "b/", "ab", "a", "c", "a/y", "b/x"}
+
+// lifeOp: one call on the runtime registry itself — Register, InjectAsDatabase (again), or a push through the push
+// function of one of the providers (registered before or after the injection), for a key inside or outside that
+// provider's own prefix.
+func (g *seqGen) lifeOp() {
+	rng := g.rng
+	switch x := rng.Intn(100); {
+	case x < 22 || len(g.provs) == 0:
+		g.addProv()
+		g.r.Count("op:prov")
+	case x < 27:
+		g.emit("inject")
+		g.r.Count("op:inject-again")
+	case x < 40:
+		g.emit(fmt.Sprintf("ppushn %d %d %s %d %s %s", g.provs[rng.Intn(len(g.provs))], 2+rng.Intn(3), g.key(), rng.Intn(7), pick(rng, genStrs), pick(rng, genFlags)))
+		g.afterWrite()
+		g.writes++
+		g.r.Count("op:ppushn")
+	default:
+		g.emit(fmt.Sprintf("ppush %d %s %d %s %s", g.provs[rng.Intn(len(g.provs))], g.key(), rng.Intn(10), pick(rng, genStrs), pick(rng, genFlags)))
+		g.afterWrite()
+		g.writes++
+		g.r.Count("op:ppush")
+	}
+}
+
+// genRegLife: the life cycle of a runtime registry as injected database, in every order: providers registered before
+// and after InjectAsDatabase, push functions called before and after the injection and before and after anybody
+// subscribed, subscriptions / hooks / reads / writes attempted before the injection (they must fail), a second
+// injection, providers on nested keys and prefixes (some refused), pushes of records outside the pusher's prefix and
+// of records marked deleted — then an ordinary history on the injected database with registry calls mixed in.
+func genRegLife(r *hxlib.Run, nops int) hxlib.Case {
+	g := &seqGen{r: r, rng: r.Rng, kind: "reg", drain: true, life: true,
+		keys: []string{"a/x", "a/y", "a/b/z", "a/x/1", "a/x", "b/x", "ab", "a", "c"}}
+	rng := r.Rng
+	g.emit("db regraw 0")
+	for i, n := 0, 1+rng.Intn(3); i < n; i++ {
+		g.newQuery()
+	}
+	before := 0
+	switch x := rng.Intn(100); {
+	case x < 25: // the order the runtime module uses: inject first
+	case x < 60:
+		before = 1
+	default:
+		before = 2 + rng.Intn(3)
+	}
+	r.Count(fmt.Sprintf("reglife:calls-before-inject:%d", min(before, 3)))
+	early := 0
+	for i := 0; i < before; i++ {
+		switch x := rng.Intn(100); {
+		case x < 55 || i == 0:
+			g.addProv()
+			early++
+		case x < 70 && len(g.provs) > 0:
+			g.emit(fmt.Sprintf("ppush %d %s %d %s -", g.provs[rng.Intn(len(g.provs))], g.key(), rng.Intn(10), pick(rng, genStrs)))
+			g.emit("drain")
+			r.Count("reglife:push-before-inject")
+		case x < 80:
+			g.emit(fmt.Sprintf("sub %d %s %d", g.nsub, pick(rng, genIfaces), rng.Intn(g.nq))) // fails: no controller yet
+			g.nsub++
+			r.Count("reglife:subscribe-before-inject")
+		case x < 87:
+			g.emit(fmt.Sprintf("hook %d %d p p p", g.nhook, rng.Intn(g.nq)))
+			g.nhook++
+		case x < 94:
+			g.emit(fmt.Sprintf("put LI %s %d %s -", g.key(), rng.Intn(10), pick(rng, genStrs)), "raw "+g.key())
+		default:
+			g.emit("get LI "+g.key(), "sizes")
+		}
+	}
+	if early > 0 {
+		r.Count("reglife:provider-registered-before-inject")
+	}
+	g.emit("inject")
+	// subscribers first (mostly), so that the pushes that follow meet somebody
+	for i, n := 0, 1+rng.Intn(3); i < n; i++ {
+		g.emit(fmt.Sprintf("sub %d %s %d", g.nsub, pick(rng, []string{"LI", "LI", "LI", "L", "I", "-"}), rng.Intn(g.nq)))
+		g.live = append(g.live, g.nsub)
+		g.nsub++
+	}
+	if rng.Intn(100) < 70 || len(g.provs) == 0 {
+		g.addProv()
+	}
+	// every provider pushes once, the early ones first
+	for _, p := range g.provs {
+		g.emit(fmt.Sprintf("ppush %d %s %d %s %s", p, g.key(), rng.Intn(10), pick(rng, genStrs), pick(rng, []string{"-", "-", "-", "s", "d", "c"})), "drain")
+		g.writes++
+	}
+	for i := 0; i < nops; i++ {
+		if rng.Intn(100) < 25 {
+			g.lifeOp()
+			continue
+		}
+		g.op()
+	}
+	g.emit("drain", "sizes")
+	return hxlib.Case{Lines: g.lines, Kind: "seq:reglife", NonTrivial: g.writes > 0}
+}
+
+// genSameHook: identity of hook values vs. registrations. One or two hook values, each registered one to three times
+// — with the same query object, with another object for the same prefix, with other prefixes / conditions — then
+// writes and reads on keys below every prefix, the registrations cancelled one by one in a random order (also twice)
+// with the same writes and reads after every cancel: each registration is asked for what its own query matches and
+// stops being asked when it — and not another registration of the same value — has been cancelled.
+func genSameHook(r *hxlib.Run) hxlib.Case {
+	rng := r.Rng
+	kind := pick(rng, []string{"hashmap 0", "hashmap 0", "hashmap 1", "bbolt 0", "inj 0", "reg 0"})
+	g := &seqGen{r: r, rng: rng, kind: strings.Fields(kind)[0], drain: true, keys: []string{"a/x", "a/y", "a/b/z", "b/x", "a/x/1", "ab"}}
+	if g.kind == "reg" {
+		g.keys = []string{"a/x", "a/y", "a/b/z", "a/x/1"}
+	}
+	g.emit("db " + kind)
+	prefixes := []string{"a/x", "a/y", "a/b", "b", "a/", "-", "a/x/"}
+	if g.kind == "reg" {
+		prefixes = []string{"a/x", "a/y", "a/b", "a/", "-", "a/x/"}
+	}
+	rng.Shuffle(len(prefixes), func(i, j int) { prefixes[i], prefixes[j] = prefixes[j], prefixes[i] })
+	nq := 2 + rng.Intn(3)
+	for i := 0; i < nq; i++ {
+		cond := "T"
+		if rng.Intn(100) < 25 {
+			cond = genCond(rng, 1, false)
+		}
+		pre := prefixes[i]
+		if i > 0 && rng.Intn(100) < 20 {
+			pre = prefixes[i-1] // another query object for the same prefix
+		}
+		g.emit(fmt.Sprintf("q %d %s %s", g.nq, pre, cond))
+		g.nq++
+	}
+	if rng.Intn(100) < 40 {
+		g.emit(fmt.Sprintf("sub 0 LI %d", rng.Intn(nq)))
+		g.nsub, g.live = 1, []int{0}
+	}
+	behs := [][3]string{{"-", "-", "v3"}, {"-", "-", "v3"}, {"v4", "-", "-"}, {"-", "v5", "-"}, {"p", "p", "p"}, {"-", "p", "s7"}, {"-", "s6", "p"}, {"v2", "p", "v3"}, {"-", "x", "p"}}
+	nvals := 1 + rng.Intn(2)
+	for v := 0; v < nvals; v++ {
+		b := behs[rng.Intn(len(behs))]
+		q0 := rng.Intn(nq)
+		g.emit(fmt.Sprintf("hook %d %d %s %s %s", g.nhook, q0, b[0], b[1], b[2]))
+		hv := g.nhook
+		g.hooks = append(g.hooks, hv)
+		g.nhook++
+		for k, n := 0, 1+rng.Intn(2); k < n; k++ {
+			q := rng.Intn(nq)
+			if rng.Intn(100) < 20 {
+				q = q0
+			}
+			g.emit(fmt.Sprintf("rehook %d %d %d", g.nhook, hv, q))
+			g.hooks = append(g.hooks, g.nhook)
+			g.nhook++
+		}
+	}
+	r.Count(fmt.Sprintf("samehook:registrations:%d", len(g.hooks)))
+	round := func() {
+		for _, k := range g.keys {
+			if rng.Intn(100) < 25 {
+				continue
+			}
+			switch x := rng.Intn(100); {
+			case x < 45:
+				g.emit("raw "+k, fmt.Sprintf("put LI %s %d %s -", k, rng.Intn(10), pick(rng, genStrs)), "raw "+k, "drain")
+				g.writes++
+			case x < 75:
+				g.emit("raw "+k, fmt.Sprintf("%s LI %s", pick(rng, []string{"get", "get", "exists"}), k))
+			case x < 90:
+				g.emit("raw "+k, fmt.Sprintf("%s LI %s", pick(rng, []string{"mksec", "mkcj", "del"}), k), "raw "+k, "drain")
+				g.writes++
+			default:
+				g.emit("raw "+k, fmt.Sprintf("putnew %s %s %d %s -", pick(rng, []string{"LI", "L", "-"}), k, rng.Intn(10), pick(rng, genStrs)), "raw "+k, "drain")
+				g.writes++
+			}
+		}
+	}
+	round()
+	order := append([]int{}, g.hooks...)
+	rng.Shuffle(len(order), func(i, j int) { order[i], order[j] = order[j], order[i] })
+	for i, id := range order {
+		g.emit(fmt.Sprintf("unhook %d", id), "sizes")
+		if rng.Intn(100) < 15 {
+			g.emit(fmt.Sprintf("unhook %d", order[rng.Intn(i+1)])) // a registration that is cancelled already
+		}
+		if i+1 < len(order) || rng.Intn(2) == 0 {
+			round()
+		}
+	}
+	g.emit("drain", "sizes")
+	return hxlib.Case{Lines: g.lines, Kind: "seq:samehook", NonTrivial: g.writes > 0}
 }
 
 func genSequential(r *hxlib.Run, kind string, shadow int, nops int, delayed bool) hxlib.Case {
@@ -247,9 +514,7 @@ func genSequential(r *hxlib.Run, kind string, shadow int, nops int, delayed bool
 		g.nsub++
 	}
 	for i, n := 0, g.rng.Intn(3); i < n; i++ {
-		g.emit(fmt.Sprintf("hook %d %d %s %s %s", g.nhook, g.rng.Intn(g.nq), g.beh(false), g.beh(true), g.beh(true)))
-		g.hooks = append(g.hooks, g.nhook)
-		g.nhook++
+		g.newHook(g.rng.Intn(g.nq))
 	}
 	for i := 0; i < nops; i++ {
 		if delayed && g.rng.Intn(100) < 15 {
@@ -458,7 +723,7 @@ func genMalformed(r *hxlib.Run) hxlib.Case {
 	bad := []string{"frob", "put", "put LI", "put LI a/x 1 foo", "put XX a/x 1 foo -", "put LI a/x one foo -", "put LI a/x 1 foo zz",
 		"sub 0 LI 99", "sub x LI 0", "cancel 99", "cancel", "unhook 7", "hook 0 0 p p", "hook 0 0 s1 p p", "hook 0 0 q p p", "q 0 - T",
 		"q 5 - gt", "q 6 - & gt 1", "q 7 A T", "q 8 - T T", "get LI", "get LI A", "exists LI", "exists LI+w a/x", "relexp LI a/x 5", "relexp LI a/x", "del QQ a/x", "exp LI a/x z", "ins LI a/x x", "db hashmap 0",
-		"db bbolt 1", "db foo 0", "raw", "raw A", "flush LI", "drain now", "sizes 1", "push a/x 1 foo", "put LI+x a/x 1 foo -", "get LI+w a/x", "putmany LI+w a/x 1 foo -", "putmany LI a/x 1 foo", "putmany ZZ a/x 1 foo -",
+		"db bbolt 1", "db foo 0", "raw", "raw A", "flush LI", "drain now", "sizes 1", "push a/x 1 foo", "put LI+x a/x 1 foo -", "get LI+w a/x", "putmany LI+w a/x 1 foo -", "putmany LI a/x 1 foo", "putmany ZZ a/x 1 foo -", "inject", "prov 0 a/", "ppush 0 a/x 1 foo -", "ppushn 0 2 a/x 1 foo -", "rehook 5 0 0", "rehook 0 0", "unhook 5", "db regraw 1",
 		"sub 3 LI+w 0", "put L+w a/x 1 foo -"}
 	var l []string
 	for i, n := 0, rng.Intn(3); i < n; i++ {
@@ -487,6 +752,14 @@ var corpus = [][]string{
 	{"db hashmap 0", "q 0 - T", "q 1 a gt 4", "sub 0 LI 0", "sub 1 - 1", "sub 2 L 1", "sub 3 I 0", "hook 0 0 p s7 s8", "hook 1 1 p p s2", "put LI a/x 1 foo -", "drain", "put S a/y 6 foo -", "drain", "put C a/y 6 foo -", "drain", "get LI a/x", "get - a/y", "mksec LI a/x", "drain", "del - a/x", "drain", "del I a/x", "drain"},
 	// injected storage: the record the storage returns is what subscribers get; push
 	{"db inj 0", "q 0 a T", "sub 0 LI 0", "put LI a/x 1 foo -", "drain", "raw a/x", "push a/y 2 bar s", "drain", "del LI a/x", "drain", "raw a/x"},
+	// one hook value registered for two prefixes: each registration is asked for its own prefix; cancelling the second leaves the first
+	{"db hashmap 0", "q 0 a/ T", "q 1 b/ T", "hook 0 0 - - v3", "rehook 1 0 1", "sizes", "raw b/x", "put LI b/x 1 foo -", "raw b/x", "raw a/x", "put LI a/x 1 foo -", "raw a/x", "unhook 1", "sizes",
+		"raw a/x", "put LI a/x 2 foo -", "raw a/x", "put LI b/x 2 foo -", "raw b/x", "unhook 0", "put LI a/x 3 foo -", "sizes"},
+	// the same value twice on one query object: called twice per matching operation, once after one cancel
+	{"db hashmap 0", "q 0 a T", "hook 0 0 p p s7", "rehook 1 0 0", "put LI a/x 1 foo -", "raw a/x", "get LI a/x", "unhook 0", "put LI a/x 2 foo -", "raw a/x", "get LI a/x", "unhook 0", "unhook 1", "put LI a/x 3 foo -", "sizes"},
+	// runtime registry: provider registered BEFORE the injection, subscription after it, push through the early provider's function
+	{"db regraw 0", "q 0 - T", "prov 0 a/", "sub 9 LI 0", "ppush 0 a/x 1 foo -", "put LI a/x 1 foo -", "raw a/x", "get LI a/x", "raw a/x", "exists LI a/x", "sizes", "inject", "inject", "sub 0 LI 0", "prov 1 b/", "prov 2 a/x/", "ppush 0 a/x 2 foo -", "drain",
+		"ppush 1 b/y 3 bar -", "ppush 0 zz 4 baz -", "ppush 1 a/x 5 foo d", "drain", "put LI a/x 6 foo -", "put LI b/x 7 foo -", "put LI c 8 foo -", "drain", "cancel 0", "ppush 0 a/x 9 foo -", "drain", "sizes"},
 	// runtime registry: unmanaged keys, no delete
 	{"db reg 0", "q 0 - T", "sub 0 LI 0", "put LI a/x 1 foo -", "drain", "put LI b/x 1 foo -", "drain", "get LI a/x", "del LI a/x", "drain", "raw a/x", "push a/y 2 bar -", "drain"},
 	// delayed writes never reach subscribers or hooks
@@ -510,13 +783,25 @@ func gen(r *hxlib.Run, emit func(hxlib.Case)) {
 			emit(genSequential(r, "bbolt", 0, nops, false))
 		case x < 72:
 			emit(genSequential(r, "inj", 0, nops, false))
-		case x < 86:
+		case x < 80:
 			emit(genSequential(r, "reg", 0, nops, false))
+		case x < 86:
+			emit(genRegLife(r, nops))
 		case x < 93:
 			emit(genSequential(r, "hashmap", r.Rng.Intn(2), nops, true))
 		default:
 			emit(genMalformed(r))
 		}
+	}
+	for i, n := 0, r.Budget(300, 4000); i < n; i++ {
+		emit(genSameHook(r))
+	}
+	for i, n := 0, r.Budget(40, 400); i < n; i++ {
+		toks := []string{"hookdbs", pick(r.Rng, hookDbsBehs)}
+		for j, m := 0, 4+r.Rng.Intn(12); j < m; j++ {
+			toks = append(toks, pick(r.Rng, hookDbsTokens))
+		}
+		emit(hxlib.Case{Lines: []string{strings.Join(toks, " ")}, Kind: "hook-two-databases", NonTrivial: true, NoModel: true})
 	}
 	for i, n := 0, r.Budget(8, 60); i < n; i++ {
 		emit(genFullFeed(r, i == 0))
